@@ -58,8 +58,9 @@ LEVEL_NOTE = ("Theorems are about exact arithmetic; IEEE rounding is not proved.
               "of netSolve and the value of m_0(), the number streamed at (i,j) of <cov-mat> by the REGENERATED covariance site "
               "is m0^2 * a.qxx(ind[i],ind[j]), written on the clipped band and read back, ind = <original-index> from the points "
               "and orientations of u (no free Q, m0, points; C03_xml_cov_is_m0sq_Q of Props/C12.lean is the form with free "
-              "Q); composed with the g-inverse theorem in C03_net_xml_cov_ginverse, whose index range 1 <= ind[i] <= n is proved "
-              "in its upper half only (C03_net_xml_ind_range_partial). Clause 'all index pairs' for the packed envelope: "
+              "Q); composed with the g-inverse theorem in C03_net_xml_cov_ginverse, with no range hypothesis on ind[]: "
+              "1 <= ind[i] <= n for every position is C03_net_xml_ind_range (index_y() != 0 from singular_coords having "
+              "returned false in the last inner call; a fixed point has index_x() == 0). Clause 'all index pairs' for the packed envelope: "
               "C16_envsolve_packed (full: hypotheses square-root law, RowsOK, HoldsProblem; well-formedness of Hom.run's sparse "
               "output and the ordering computed from it are conclusions) identifies envSolve's factor with the packed envelope of "
               "Homogenization::run's output and the packed inverse with the dense recursion INSIDE the profile; outside the "
